@@ -29,6 +29,10 @@ class PathBudget(Abort):
     pass
 
 
+class Infeasible(Abort):
+    """assumptions + path condition have no model: the path does not exist (nothing to check)"""
+
+
 # --------------------------------------------------------------------------------------
 # Engine
 # --------------------------------------------------------------------------------------
@@ -181,6 +185,9 @@ class Engine:
                 res.budget_cut += 1
                 res.notes.append('path cut: %s' % e)
                 continue
+            except Infeasible:
+                res.infeasible += 1
+                continue
             except Unsupported as e:
                 res.aborted.append(('unsupported', str(e), list(self.decisions)))
                 continue
@@ -303,6 +310,7 @@ class ExploreResult:
         self.outcomes = []
         self.aborted = []
         self.budget_cut = 0
+        self.infeasible = 0
         self.notes = []
         self.raw = []
         self.wall = 0.0
@@ -744,6 +752,8 @@ class Sym(numbers.Number):
                 ENG.decisions.append(ENG.prefix[n])
             else:
                 r, s = ENG.check()
+                if r == 'unsat':
+                    raise Infeasible('no value left for a case split')
                 if r != 'sat':
                     raise Abort('concretize: %s' % r)
                 val = s.model().eval(self.z, model_completion=True).as_long()
